@@ -78,11 +78,23 @@ check('C04', 'E2-world',
       'DESIGN.md section 7 C04')
 
 
+check('C02', 'E2-world',
+      'Crash-restart simulation: seeded session histories (in-memory and file-backed datasets, every component kind, coordinates, links of '
+      'every helper class, key joins, groups over every SubsetState / Roi class found by introspection, styles, metadata) with restart as a '
+      'generated operation - save, drop every in-memory object, restore, continue on the restored session, save again - and storage faults '
+      '(torn / short writes, ENOSPC, failing open and close, truncated / missing / empty / directory on read) attached to saves and restores. '
+      'Oracle: user-visible snapshot equality, idempotence of a second round trip, loud failure under faults. Sampling, not proof.',
+      'Python-level file faults are injected through glue.core.application_base.open; values and masks that depend on a non-unique link chain are '
+      'compared as reachable/evaluable only; bit flips inside complete files are not injected.',
+      'deterministic simulation: crash-restart as a scheduled operation + storage fault injection + snapshot-equality oracle',
+      'DESIGN.md section 7 C02')
+
+
 def na(pid, reason):
     NA[pid] = dict(property_id=pid, reason=reason)
 
 PENDING = 'check under construction in this build round (see DESIGN.md section 7); not claimed until its oracle is proven sound on the unchanged tree'
-for pid in ['C02', 'C11', 'C12', 'C14', 'C16', 'C17', 'C18', 'C19']:
+for pid in [ 'C11', 'C12', 'C14', 'C16', 'C17', 'C18', 'C19']:
     na(pid, PENDING)
 na('C08', 'pure function of region parameters and points: no schedule, clock, fault, shared state or history for a simulator to vary (DESIGN.md section 8)')
 na('C09', 'pure translation roi -> subset state; nothing stateful or faulty involved (DESIGN.md section 8)')
